@@ -32,7 +32,7 @@ def run_case(script, close_step):
     def watch(sc_, step, nt):
         seen_states.add(sc_.state_digest())
 
-    sc = vloop.Scenario(script, close_step=close_step, watch=watch).run()
+    sc = vloop.Scenario(script, close_step=close_step, watch=watch, horizon=400.0 + 70.0 * len(script)).run()
     errs = list(dict.fromkeys(sc.problems))
     log = sc.log
     if sc.max_tasks > TASK_BOUND:
@@ -176,6 +176,9 @@ def main(run: core.Run) -> int:
             for ls in itertools.product((None, 0, 1), repeat=len(succ)):
                 li = iter(ls)
                 allscripts.append(tuple((k, d, next(li) if k == "S" else None) for k, d in seq))
+    nlong = 24 if q else 60
+    for pat in ((("F", 0, None),), (("S", 0, 1),), (("F", 0, None), ("S", 0, 7)), (("S", 0, 0), ("S", 0, 1), ("F", 0, None))):
+        allscripts.append(tuple((pat * nlong)[:nlong]))  # a counter/threshold on the number of reconnects shows only in long scripts
     batches = [(allscripts[i::64],) for i in range(64)]
     run.log(f"{len(allscripts)} scripts")
     run.merge(par.pmap(_work, batches, seed=run.seed))
@@ -184,7 +187,7 @@ def main(run: core.Run) -> int:
     tot = run.total
     tot.sample({"script": [["F", 0, None], ["S", 2, None]], "close_before_step": 7, "meaning": "close() lands while the second attempt is pending"})
     tot.sample({"script": [["S", 0, 1], ["S", 0, None]], "close_before_step": "every k in 0..K"})
-    run.bounds = {"script_length": L if q else "4 (all outcomes) and 5 (fast outcomes)", "scripts": len(allscripts), "close_positions": "every step of every script", "cycles_for_task_bound": cyc,
+    run.bounds = {"script_length": L if q else "4 (all outcomes) and 5 (fast outcomes)", "scripts": len(allscripts), "close_positions": "every step of every script", "long_scripts": f"4 periodic scripts of {nlong} attempts, close() at every step", "cycles_for_task_bound": cyc,
                   "external_events": "one close() per run"}
     run.assumptions = ["the explorer owns the clock (virtual), the callback order (FIFO of the stock loop) and the factory; CPython GC timing is not owned and no oracle reads it",
                        "asyncio internals _ready/_scheduled as in CPython 3.12 (asserted at start-up)", "han.meter_connection.datetime is substituted by a shim reading the virtual clock"]
